@@ -3,6 +3,7 @@ package main
 import (
 	"fmt"
 	"go/token"
+	"go/types"
 	"sort"
 
 	"golang.org/x/tools/go/ssa"
@@ -16,8 +17,7 @@ import (
 // decoded in that iteration, the advanced cursor returned on success, -1 on every other exit, and an early bail-out
 // (if any) that can only fire when fewer than n+1 bytes remain (linear arithmetic over position, end and n).
 
-func c14PeekHelpers(c *Ctx) {
-	const rule = "C14.peek-helpers"
+func c14PeekHelpers(c *Ctx, rule string) {
 	var hs []*ssa.Function
 	for _, f := range c.P.ModFuncs {
 		if peekKind(f) != "" && len(f.Blocks) > 0 {
@@ -153,6 +153,9 @@ func (c *Ctx) peekHelperShape(f *ssa.Function) string {
 		return "unexpected signature"
 	}
 	nParam, test := ssa.Value(f.Params[1]), ssa.Value(f.Params[2])
+	if kind == "equal" && c.peekDelegates(f) {
+		return "" // the predicate form, checked on its own, does the work
+	}
 	loops := naturalLoops(f)
 	if len(loops) != 1 {
 		return fmt.Sprintf("expected one loop over the runes, found %d", len(loops))
@@ -605,4 +608,264 @@ func c14TriviaStep(c *Ctx) {
 		}
 	}
 	c.R.Floor(rule, 2)
+}
+
+// peekDelegates: peekEqual(n, ch) is `return s.peekCheck(n, func(r rune) bool { return r == ch })`.
+func (c *Ctx) peekDelegates(f *ssa.Function) bool {
+	if len(f.Blocks) != 1 {
+		return false
+	}
+	var call *ssa.Call
+	for _, in := range f.Blocks[0].Instrs {
+		if cl, ok := in.(*ssa.Call); ok {
+			if call != nil {
+				return false
+			}
+			call = cl
+		}
+	}
+	if call == nil || peekKind(calleeOf(call)) != "check" || len(call.Call.Args) != 3 {
+		return false
+	}
+	if call.Call.Args[0] != ssa.Value(f.Params[0]) || call.Call.Args[1] != ssa.Value(f.Params[1]) {
+		return false
+	}
+	ret, ok := f.Blocks[0].Instrs[len(f.Blocks[0].Instrs)-1].(*ssa.Return)
+	if !ok || len(ret.Results) != 1 || ret.Results[0] != ssa.Value(call) {
+		return false
+	}
+	mc, ok := call.Call.Args[2].(*ssa.MakeClosure)
+	if !ok || len(mc.Bindings) != 1 {
+		return false
+	}
+	// the binding is the rune parameter (or the cell holding it, stored once)
+	bound := false
+	switch b := mc.Bindings[0].(type) {
+	case *ssa.Parameter:
+		bound = b == f.Params[2]
+	case *ssa.Alloc:
+		n := 0
+		for _, ref := range *b.Referrers() {
+			if st, isSt := ref.(*ssa.Store); isSt && st.Addr == ssa.Value(b) {
+				n++
+				bound = st.Val == ssa.Value(f.Params[2])
+			}
+		}
+		bound = bound && n == 1
+	}
+	if !bound {
+		return false
+	}
+	g, ok := mc.Fn.(*ssa.Function)
+	if !ok || len(g.Blocks) != 1 || len(g.Params) != 1 || len(g.FreeVars) != 1 {
+		return false
+	}
+	gr, ok := g.Blocks[0].Instrs[len(g.Blocks[0].Instrs)-1].(*ssa.Return)
+	if !ok || len(gr.Results) != 1 {
+		return false
+	}
+	bo, ok := gr.Results[0].(*ssa.BinOp)
+	if !ok || bo.Op != token.EQL {
+		return false
+	}
+	isFree := func(v ssa.Value) bool {
+		if v == ssa.Value(g.FreeVars[0]) {
+			return true
+		}
+		u, ok := v.(*ssa.UnOp)
+		return ok && u.Op == token.MUL && u.X == ssa.Value(g.FreeVars[0])
+	}
+	return bo.X == ssa.Value(g.Params[0]) && isFree(bo.Y) || bo.Y == ssa.Value(g.Params[0]) && isFree(bo.X)
+}
+
+// c14RangeLookup: membership in a table of inclusive [lo, hi] pairs. The function that searches it must (1) report a
+// hit exactly for lo <= code <= hi of one pair (both comparisons inclusive, indices m and m+1), (2) bail out early
+// only below the first lower bound (code < t[0]) or above the last upper bound (code > t[len-1]) - a non-strict test
+// there drops the boundary code point of the table - and (3) narrow to the half that can still contain the code.
+func c14RangeLookup(c *Ctx) {
+	const rule = "C14.range-lookup"
+	n := 0
+	for _, f := range c.P.ModFuncs {
+		if len(f.Params) != 2 || len(f.Blocks) == 0 || f.Signature.Results().Len() != 1 || !isBoolType(f.Signature.Results().At(0).Type()) {
+			continue
+		}
+		if bt, ok := f.Params[0].Type().Underlying().(*types.Basic); !ok || bt.Kind() != types.Int32 {
+			continue
+		}
+		if f.Params[1].Type().String() != "[]rune" && f.Params[1].Type().String() != "[]int32" {
+			continue
+		}
+		loops := naturalLoops(f)
+		if len(loops) != 1 {
+			continue
+		}
+		n++
+		why := c.rangeLookupShape(f, loops[0])
+		c.R.Check(rule, c.P.FuncKey(f), c.P.Pos(f.Pos()), why == "", "the range-table lookup behind the identifier classes must be an inclusive pair search: "+why)
+	}
+	c.R.Floor(rule, 1)
+}
+
+func (c *Ctx) rangeLookupShape(f *ssa.Function, l *Loop) string {
+	code, tab := ssa.Value(f.Params[0]), ssa.Value(f.Params[1])
+	// loads of table elements: value -> index expression
+	elemIdx := func(v ssa.Value) (ssa.Value, bool) {
+		u, ok := v.(*ssa.UnOp)
+		if !ok || u.Op != token.MUL {
+			return nil, false
+		}
+		ia, ok := u.X.(*ssa.IndexAddr)
+		if !ok || ia.X != tab {
+			return nil, false
+		}
+		return ia.Index, true
+	}
+	isLastIdx := func(v ssa.Value) bool {
+		bo, ok := v.(*ssa.BinOp)
+		if !ok || bo.Op != token.SUB {
+			return false
+		}
+		k, isK := constIntArg(bo.Y)
+		lc, isC := bo.X.(*ssa.Call)
+		return isK && k == 1 && isC && isBuiltinCall(lc, "len") && lc.Call.Args[0] == tab
+	}
+	// normalise a comparison to "code OP elem[idx]" (OP as seen with code on the left)
+	type cmp struct {
+		op  token.Token
+		idx ssa.Value
+	}
+	flip := map[token.Token]token.Token{token.LSS: token.GTR, token.GTR: token.LSS, token.LEQ: token.GEQ, token.GEQ: token.LEQ, token.EQL: token.EQL, token.NEQ: token.NEQ}
+	neg := map[token.Token]token.Token{token.LSS: token.GEQ, token.GEQ: token.LSS, token.GTR: token.LEQ, token.LEQ: token.GTR, token.EQL: token.NEQ, token.NEQ: token.EQL}
+	asCmp := func(v ssa.Value) (cmp, bool) {
+		bo, ok := v.(*ssa.BinOp)
+		if !ok {
+			return cmp{}, false
+		}
+		if bo.X == code {
+			if idx, ok := elemIdx(bo.Y); ok {
+				return cmp{bo.Op, idx}, true
+			}
+		}
+		if bo.Y == code {
+			if idx, ok := elemIdx(bo.X); ok {
+				if op, ok := flip[bo.Op]; ok {
+					return cmp{op, idx}, true
+				}
+			}
+		}
+		return cmp{}, false
+	}
+	// conditions that hold on entry to block b (edge conditions of the dominator chain)
+	holds := func(b *ssa.BasicBlock) []cmp {
+		var out []cmp
+		for d := b; d != nil; d = d.Idom() {
+			id := d.Idom()
+			if id == nil {
+				break
+			}
+			iff, ok := id.Instrs[len(id.Instrs)-1].(*ssa.If)
+			if !ok || len(d.Preds) != 1 {
+				continue
+			}
+			cm, ok := asCmp(iff.Cond)
+			if !ok {
+				continue
+			}
+			if id.Succs[0] == d {
+				out = append(out, cm)
+			} else if id.Succs[1] == d {
+				out = append(out, cmp{neg[cm.op], cm.idx})
+			}
+		}
+		return out
+	}
+	plusOne := func(a, b ssa.Value) bool { // b == a + 1
+		bo, ok := b.(*ssa.BinOp)
+		if !ok || bo.Op != token.ADD {
+			return false
+		}
+		k, isK := constIntArg(bo.Y)
+		return isK && k == 1 && (bo.X == a || sameExpr(bo.X, a))
+	}
+	hits := 0
+	for _, b := range f.Blocks {
+		ret, ok := b.Instrs[len(b.Instrs)-1].(*ssa.Return)
+		if !ok {
+			continue
+		}
+		k, isK := constBoolArg(ret.Results[0])
+		if !isK {
+			return "a result that is not a constant true/false"
+		}
+		conds := holds(b)
+		if k {
+			// hit: code >= t[m] and code <= t[m+1]
+			var lo, hi *cmp
+			for i := range conds {
+				switch conds[i].op {
+				case token.GEQ:
+					if lo == nil {
+						lo = &conds[i]
+					}
+				case token.LEQ:
+					if hi == nil {
+						hi = &conds[i]
+					}
+				}
+			}
+			if lo == nil || hi == nil {
+				return "a hit is reported without both inclusive tests t[m] <= code and code <= t[m+1] (a strict comparison loses the first or last code point of every range)"
+			}
+			if !plusOne(lo.idx, hi.idx) {
+				return "a hit compares against elements that are not a (lower, upper) pair t[m], t[m+1]"
+			}
+			hits++
+			continue
+		}
+		if l.Header.Dominates(b) {
+			continue // exhaustion of the search
+		}
+		// early bail-out
+		okGuard := false
+		for _, cm := range conds {
+			if k0, isK0 := constIntArg(cm.idx); isK0 && k0 == 0 && cm.op == token.LSS {
+				okGuard = true
+			}
+			if isLastIdx(cm.idx) && cm.op == token.GTR {
+				okGuard = true
+			}
+		}
+		// a disjunction `a || b` reaches the return over two edges: accept when every predecessor edge is one of the two sound tests
+		if !okGuard && len(b.Preds) > 1 {
+			all := true
+			for _, p := range b.Preds {
+				iff, ok := p.Instrs[len(p.Instrs)-1].(*ssa.If)
+				if !ok {
+					all = false
+					break
+				}
+				cm, ok := asCmp(iff.Cond)
+				if !ok {
+					all = false
+					break
+				}
+				if p.Succs[1] == b && p.Succs[0] != b {
+					cm = cmp{neg[cm.op], cm.idx}
+				}
+				k0, isK0 := constIntArg(cm.idx)
+				sound := isK0 && k0 == 0 && cm.op == token.LSS || isLastIdx(cm.idx) && cm.op == token.GTR
+				if !sound {
+					all = false
+				}
+			}
+			okGuard = all
+		}
+		if !okGuard {
+			return "an early `false` that is neither `code < t[0]` nor `code > t[len(t)-1]`: the boundary code point of the table would be reported as absent"
+		}
+	}
+	if hits == 0 {
+		return "no hit return"
+	}
+	return ""
 }
